@@ -18,7 +18,7 @@ INFO = {
                "and builds the function through FunctionDefinitions::create on every successful path, and create "
                "rejects too few / too many arguments and is the only caller of a factory; (e) get_processor rejects "
                "output options that do not belong to the style, and the header-less csv error is raised before "
-               "anything is written (C15-ROW instances).",
+               "anything is written (C15-ROW instances). Every stage hands start() on at once, so the sink's header-less csv error is raised before any input is read.",
     "not_decided": "Completeness of clap's own validation, the wording of messages, and the full grammar of the "
                    "accepted suffixes (--select's `=name`, --sort-by's direction words are validated by value logic "
                    "that unit tests sample).",
